@@ -375,10 +375,10 @@ def run(ctx, model_ok):
     thorough = ctx.tier == "thorough"
     if thorough:
         perms, groups = perm_scripts(rng, [0, 1, 2, 3, 4, 5], 6, 14)
-        nhist, maxops = 600000, 7
+        nhist, maxops = 1200000, 7
     else:
         perms, groups = perm_scripts(rng, [0, 1, 2, 3], 4, 25)
-        nhist, maxops = 12000, 5
+        nhist, maxops = 30000, 5
     ctx.cov["exhaustive"] = True
     impl = L.run_stream(ctx, "perms", perms, model_ok, classify=lambda s, r: ("perm", s.split("\n")[1][:40], r["status"]))
     # metamorphic leg: within a group (same pairs, all insertion orders) the output is one and the same text
